@@ -9,7 +9,9 @@ S  (syntactic / constants, exhaustive)  what the contracts in contracts/c12.py t
                  every SubroutinizerBackend member has a specified `_subroutinize#<value>` contract; (call sites) BaseCompiler.compile
                  calls `self.postprocess(font, ufo, glyphSet)` without `info`, `process_cff` is called only by `process`,
                  `_subroutinize` only by `process_cff`, the `_subroutinize_with_*` helpers only through `_subroutinize`;
-                 compileOTF is `OTFCompiler(**kwargs).compile(ufo)`.
+                 compileOTF is `OTFCompiler(**kwargs).compile(ufo)`; (frame of the summaries in compile#C12) no store to
+                 `.cffVersion` / `.subroutinizer` / `.useProductionNames` in Lib/ufo2ft outside the variable-font driver, the CFF
+                 library entry points are named in postProcessor.py only.
 D  (exhaustive cross-check)  The CFF dispatch of PostProcessor is PROVED as postconditions of process / process_cff / _subroutinize /
                  _subroutinize_with_* (contracts/c12.py).  D executes every cell of the same finite decision table on the REAL
                  functions with recording stand-ins for the three library entry points and a font stand-in that answers
@@ -295,6 +297,26 @@ def _s():
     pcalls = [n for f in base_compile for n in ast.walk(f) if isinstance(n, ast.Call) and isinstance(n.func, ast.Attribute) and n.func.attr == "postprocess"]
     ob("callsites.compile-postprocess-without-info", len(pcalls) == 1 and len(pcalls[0].args) == 3 and not pcalls[0].keywords,
        "BaseCompiler.compile no longer calls self.postprocess(font, ufo, glyphSet) (info=None is a precondition of the postprocess / process contracts)")
+    # frame of the two summaries used by compile#C12 (preprocess / compileFeatures): nobody in Lib/ufo2ft stores to the compiler's CFF
+    # options (except the variable-font driver's save/restore of useProductionNames), and the three library entry points are named in
+    # postProcessor.py only
+    stores, libnames = [], {}
+    for path, text in texts.items():
+        tree = ast.parse(text)
+        for fdef in [n for n in ast.walk(tree) if isinstance(n, (ast.FunctionDef, ast.AsyncFunctionDef))]:
+            for n in ast.walk(fdef):
+                if isinstance(n, ast.Attribute) and isinstance(n.ctx, (ast.Store, ast.Del)) and n.attr in ("cffVersion", "subroutinizer", "useProductionNames"):
+                    stores.append((pathlib.Path(path).name, fdef.name, n.attr))
+        for n in ast.walk(tree):
+            nm = n.id if isinstance(n, ast.Name) else n.attr if isinstance(n, ast.Attribute) else n.name.split(".")[0] if isinstance(n, ast.alias) else None
+            if nm in ("cffsubr", "compreffor", "convertCFFToCFF2", "compress", "subroutinize"):
+                libnames.setdefault(nm, set()).add(pathlib.Path(path).name)
+            if isinstance(n, ast.Call) and isinstance(n.func, ast.Name) and n.func.id in ("setattr", "delattr") and len(n.args) > 1 and not isinstance(n.args[1], ast.Constant) and pathlib.Path(path).name in ("baseCompiler.py", "otfCompiler.py"):
+                stores.append((pathlib.Path(path).name, "setattr", "<computed>"))
+    ob("frame.compiler-options-not-stored", set(stores) <= {("baseCompiler.py", "_compileNeededSources", "useProductionNames")},
+       f"stores to the compiler's CFF options: {sorted(set(stores))}")
+    ob("frame.cff-libraries-only-in-postProcessor", all(v == {"postProcessor.py"} for v in libnames.values()) and {"cffsubr", "convertCFFToCFF2"} <= set(libnames),
+       f"CFF library entry points referenced in: { {k: sorted(v) for k, v in libnames.items()} }")
     co = ast.parse(inspect.getsource(ufo2ft.compileOTF)).body[0]
     ret = [n for n in co.body if isinstance(n, ast.Return)]
     ob("callsites.compileOTF", len(ret) == 1 and ast.unparse(ret[0].value) == "OTFCompiler(**kwargs).compile(ufo)", f"compileOTF returns {ast.unparse(ret[0].value) if ret else '?'}")
